@@ -47,6 +47,7 @@ static uint8_t     A8, P8, B8[8];
 static uint16_t    A16, P16, W16[4];
 static uint32_t    A32, P32, N32, R32, W32;
 static uint32_t    CsdoCobTx, CsdoCobRx; static uint8_t CsdoNode;
+static uint32_t    Csdo2CobTx, Csdo2CobRx; static uint8_t Csdo2Node;
 static uint32_t    SsdoRx, SsdoTx;
 static uint8_t     DomData[20]; static CO_OBJ_DOM DomObj;
 static CO_NODE_SPEC NcSpec;
@@ -114,6 +115,15 @@ static void nc_prepare(void)
         od_add(&b, CO_KEY(0x1280, 2, CO_OBJ_____RW), NC.sdo_dyn ? CO_TSDO_ID : CO_TUNSIGNED32, (CO_DATA)&CsdoCobRx);
         od_add(&b, CO_KEY(0x1280, 3, CO_OBJ_____RW), CO_TUNSIGNED8, (CO_DATA)&CsdoNode);
     }
+#if CO_CSDO_N > 1
+    if (NC.csdo > 1) {                                        /* second client: server node 6, requests on 606h, responses on 586h */
+        Csdo2CobTx = 0x600; Csdo2CobRx = 0x580; Csdo2Node = 6;
+        od_add(&b, CO_KEY(0x1281, 0, CO_OBJ_D___R_), CO_TUNSIGNED8, (CO_DATA)3);
+        od_add(&b, CO_KEY(0x1281, 1, CO_OBJ_____RW), NC.sdo_dyn ? CO_TSDO_ID : CO_TUNSIGNED32, (CO_DATA)&Csdo2CobTx);
+        od_add(&b, CO_KEY(0x1281, 2, CO_OBJ_____RW), NC.sdo_dyn ? CO_TSDO_ID : CO_TUNSIGNED32, (CO_DATA)&Csdo2CobRx);
+        od_add(&b, CO_KEY(0x1281, 3, CO_OBJ_____RW), CO_TUNSIGNED8, (CO_DATA)&Csdo2Node);
+    }
+#endif
     for (i = 0; i < NC.n_rpdo; i++) if (NC.rpdo[i].present) {
         RpCob[i] = NC.rpdo[i].cobid; RpType[i] = NC.rpdo[i].type; RpNum[i] = NC.rpdo[i].nmap;
         od_add(&b, CO_KEY(0x1400 + i, 0, CO_OBJ_D___R_), CO_TUNSIGNED8, (CO_DATA)2);
@@ -157,7 +167,7 @@ static void nc_prepare(void)
     W_REG(SyncId); W_REG(SyncCycle); W_REG(EmcyId); W_REG(HistNum); W_REG(Hist);
     W_REG(RpCob); W_REG(TpCob); W_REG(RpMap); W_REG(TpMap); W_REG(RpType); W_REG(TpType); W_REG(RpNum); W_REG(TpNum); W_REG(TpInh); W_REG(TpEvt);
     W_REG(A8); W_REG(P8); W_REG(B8); W_REG(A16); W_REG(P16); W_REG(W16); W_REG(A32); W_REG(P32); W_REG(N32); W_REG(R32); W_REG(W32);
-    W_REG(CsdoCobTx); W_REG(CsdoCobRx); W_REG(CsdoNode); W_REG(SsdoRx); W_REG(SsdoTx); W_REG(DomData); W_REG(DomObj);
+    W_REG(CsdoCobTx); W_REG(CsdoCobRx); W_REG(CsdoNode); W_REG(Csdo2CobTx); W_REG(Csdo2CobRx); W_REG(Csdo2Node); W_REG(SsdoRx); W_REG(SsdoTx); W_REG(DomData); W_REG(DomObj);
     for (i = 0; i < CO_SSDO_N; i++) w_nohash_range(&Node.Sdo[i].Frm, sizeof Node.Sdo[i].Frm);
     /* these harnesses only use expedited transfers: the server is idle between steps and the multiplexer / abort
      * override latched from the last request are overwritten by the next one before they are read */
